@@ -99,7 +99,7 @@ int main(int argc, char **argv)
             std::cout << "pwv " << pr << " | " << n1 << " " << r1 << " | " << n2; for (auto *x : vec) { std::cout << " " << std::lround(x->as<ob::RealVectorStateSpace::StateType>()->values[0]); sp->freeState(x); }
             std::cout << std::endl; sp->freeState(s); sp->freeState(r); cs->freeControl(c); return;
         }
-        if (line.rfind("CRRT ", 0) == 0)
+        if (line.rfind("CRRT ", 0) == 0 || line.rfind("CRRTI ", 0) == 0)
         {   // CRRT <goal> <thr> <minDur> <maxDur> <k> <iters> <tapeSeed> <bias> B <n> bad... S <n> starts... P <n> samples... U <n> {u steps}...
             //   control::RRT on R^1 (propagator x -> x + u per step), directed control sampler with k scripted candidates per iteration,
             //   scripted state sampler, goal-bias draws from the RNG tape, linear nearest neighbours, IterationTerminationCondition(iters)
@@ -127,6 +127,7 @@ int main(int argc, char **argv)
             ob::ScopedState<> g(sp); g[0] = (double)goal; pdef->setGoalState(g, (double)thr);
             auto planner = std::make_shared<oc::RRT>(si);
             planner->setNearestNeighbors<ompl::NearestNeighborsLinear>(); planner->setGoalBias(bias);
+            const bool interm = c0 == "CRRTI"; planner->setIntermediateStates(interm);
             planner->setProblemDefinition(pdef); planner->setup();
             std::vector<double> tape; for (unsigned long q = 0; q < (unsigned long)iters + 8; ++q) tape.push_back((double)((tseed + 7 * q + 3 * q * q) % 64) / 64.0);
             ob::IterationTerminationCondition itc(iters);
@@ -135,7 +136,7 @@ int main(int argc, char **argv)
             ompl::RNG::verifSetTape(nullptr, 0);
             std::vector<oc::RRT::Motion *> ms; planner->nn_->list(ms);
             std::map<const oc::RRT::Motion *, long> idx; for (std::size_t i = 0; i < ms.size(); ++i) idx[ms[i]] = (long)i;
-            std::printf("crrt %zu;", ms.size());
+            std::printf("%s %zu;", interm ? "crrti" : "crrt", ms.size());
             for (auto *m : ms)
             {
                 long x = std::lround(m->state->as<ob::RealVectorStateSpace::StateType>()->values[0]);
